@@ -5,7 +5,8 @@ import asyncgen
 import vlib
 
 PID = "C14"
-THEOREMS = ['C14_no_poll_after_dispose', 'C14_never_polled_again', 'C14_no_panic', 'C14_counters_released', 'C14_counter_invariant_reachable']
+THEOREMS = ['C14_no_poll_after_dispose', 'C14_never_polled_again', 'C14_no_panic', 'C14_counters_released', 'C14_counter_invariant_reachable',
+            'C14_nothing_loading_after_root_disposal']
 
 BASES = [
     [("scope", 9, [("sus", 1, [("task", 1, 2)])]), ("sus", 2, [("scope", 8, [("task", 2, 2)])])],
